@@ -398,6 +398,51 @@ def jitter_rules_for(idx: ProgramIndex, rep: Report, rule: str):
         rep.error(f"psd_safe_cholesky rules: {e}")
 
 
+def rule_unit_signs(idx: ProgramIndex, rep: Report):
+    """svd through an eigendecomposition flips the sign of eigenvector columns (U = Q * sign, S = |w|).  The flipped basis is
+    orthonormal only if every factor has modulus one; ``torch.sign`` is 0 at 0, so for a singular PSD operator the columns
+    that belong to zero eigenvalues are wiped out (U^T U != I, and shortcuts that shift S afterwards - a constant diagonal
+    added to the singular values - no longer reconstruct the matrix).  A sign factor in an ``_svd`` definition must be
+    zero-free: built by a comparison (``torch.where(w < 0, -1, 1)``) or repaired (``s[s == 0] = 1``, masked_fill, where)."""
+    rep.rule("C06.U", "sign factors applied to a singular-vector basis cannot vanish (torch.sign(0) = 0)", floor=2)
+    base = idx.operator_base()
+
+    def is_sign(e: ast.AST) -> bool:
+        return isinstance(e, ast.Call) and ((dotted(e.func) or "") in ("torch.sign", "torch.sgn") or (
+            isinstance(e.func, ast.Attribute) and e.func.attr in ("sign", "sgn") and not (dotted(e.func) or "").startswith("torch.")))
+
+    for fn in idx.implementations("_svd") + idx.implementations("svd"):
+        if fn.cls is None or base not in fn.cls.mro:
+            continue
+        signs = [n for n in walk_body(fn) if is_sign(n)]
+        sample = {"definition": f"{fn.cls.name}.{fn.name}", "sign_calls": len(signs)}
+        bad = None
+        for sg in signs:
+            # the name the sign is bound to (if any), and whether that name is repaired before it is used
+            bound = next((st.targets[0].id for st in walk_body(fn) if isinstance(st, ast.Assign) and len(st.targets) == 1
+                          and isinstance(st.targets[0], ast.Name) and st.value is sg), None)
+            repaired = False
+            if bound is not None:
+                for st in walk_body(fn):
+                    txt = norm(st) if isinstance(st, ast.stmt) else ""
+                    if isinstance(st, ast.Assign) and any(isinstance(t, ast.Subscript) and isinstance(t.value, ast.Name) and t.value.id == bound
+                                                          and "== 0" in norm(t.slice) for t in st.targets):
+                        repaired = True
+                    if isinstance(st, (ast.Assign, ast.Expr)) and bound in txt and "== 0" in txt and any(
+                            k in txt for k in ("where(", "masked_fill")):
+                        repaired = True
+            if not repaired:
+                bad = sg
+        if bad is not None:
+            rep.bad("C06.U", Finding(PROP, "C06.U", f"{fn.cls.name}.{fn.name}", "sign factor that can vanish scales a singular-vector basis",
+                                     f"{fn.cls.name}.{fn.name} multiplies the eigenvector basis by `{short(bad, 40)}`, which is 0 for a zero "
+                                     "eigenvalue: for a singular PSD operator the returned U / V has zero columns (not orthonormal), and a "
+                                     "shortcut that shifts the singular values afterwards (constant added diagonal) no longer reconstructs the "
+                                     "matrix", fn.loc(bad)), sample)
+        else:
+            rep.ok("C06.U", sample)
+
+
 def run(idx: ProgramIndex, rep: Report, tier: str, selftest: bool = True):
     rep.extra["explanation"] = (
         "Structural necessary conditions of 'factorizations factorize'. (R) The orientation of the factor returned by "
@@ -416,6 +461,7 @@ def run(idx: ProgramIndex, rep: Report, tier: str, selftest: bool = True):
     rule_spec_params(idx, rep)
     rule_method_tables(idx, rep)
     rule_request_forwarding(idx, rep)
+    rule_unit_signs(idx, rep)
     rep.rule("C06.J", "the jittered Cholesky factor is info-gated, per member, incremental and of the requested orientation", floor=8)
     jitter_rules_for(idx, rep, "C06.J")
     if selftest:
